@@ -6,7 +6,7 @@ use crate::c09::*;
 use crate::cases::*;
 use crate::gen::*;
 use crate::Server;
-use dsverif::util::{emit, g_bytes, g_list, g_opt, g_str, Rng};
+use dsverif::util::{emit, g_list, g_opt, Rng};
 use std::io::Write;
 
 /// long undecodable texts: lengths around powers of two, with a multi-byte
